@@ -433,6 +433,64 @@ def r136(facts, res):
             res.ok(R, key, loc_of(b), 'stored exactly as given: a move of the parameter, no call takes it by &mut or by value')
 
 
+def r137(facts, res):
+    """What the generator writes for a rule is the rule's own data.  In the per-rule closure of CTLexerBuilder::build every value
+    obtained from a getter of `Rule` (start_states, name_span, target_state, name) and handed on to the quotation has ONE
+    definition chain: a local that receives the getter's result on one path and something else on another (`match
+    r.start_states() { [0] => &[], ss => ss }`: "INITIAL is implicit") makes the generated lexer differ from the run-time one
+    exactly for the rules the special case was written for."""
+    R = 'R13.7'
+    GETTERS = ('start_states', 'name_span', 'target_state', 'name')
+    n = 0
+    for x in facts.lib_bodies(['lrlex']):
+        if 'ctbuilder::CTLexerBuilder' not in x.path or x.from_expansion and False:
+            continue
+        for bb, t in x.calls():
+            c = callee_of(t)
+            if c['name'] not in GETTERS or 'lexer::Rule' not in (c.get('path') or '') + (c.get('self_ty') or ''):
+                continue
+            n += 1
+            key = 'rule-data:%s' % c['name']
+            tainted = {t['dest']['l']}
+            changed = True
+            while changed:
+                changed = False
+                for b2, i, st in x.stmts():
+                    if st['k'] != 'assign' or st['lhs']['p']:
+                        continue
+                    rv = st['rv']
+                    srcs = [op_local(o) for o in rv_operands(rv)]
+                    for k in ('ref', 'discr', 'len'):
+                        if isinstance(rv.get(k), dict) and 'l' in rv[k]:
+                            srcs.append(rv[k]['l'])
+                    plain = ('use' in rv or 'ref' in rv or 'cast' in rv) and 'bin' not in rv
+                    if plain and any(s_ in tainted for s_ in srcs) and st['lhs']['l'] not in tainted:
+                        tainted.add(st['lhs']['l'])
+                        changed = True
+            bad = []
+            for l in sorted(tainted):
+                ds = x.defs().get(l, ())
+                if len(ds) < 2:
+                    continue
+                foreign = 0
+                for _b, kind, d in ds:
+                    if kind == 'call':
+                        foreign += (_b, d) != (bb, t)
+                        continue
+                    srcs = [op_local(o) for o in rv_operands(d)]
+                    if isinstance(d.get('ref'), dict):
+                        srcs.append(d['ref'].get('l'))
+                    if not any(s_ in tainted for s_ in srcs):
+                        foreign += 1
+                if foreign:
+                    bad.append('`%s` receives the result of Rule::%s on one path and something else on another' % (x.name_of(l) or '_%d' % l, c['name']))
+            if bad:
+                res.bad(R, key, loc_of(x, bb), '; '.join(bad[:2]) + ': the generated rule is not always built from the rule\'s own data', {'function': x.path})
+            else:
+                res.ok(R, key, loc_of(x, bb), 'the value of Rule::%s has one definition chain on its way to the quotation (%d locals)' % (c['name'], len(tainted)))
+    res.floor(R, 'Rule getters read by the lexer generator', n, 3)
+
+
 def run(facts, res):
     r131(facts, res)
     r132(facts, res)
@@ -440,3 +498,4 @@ def run(facts, res):
     r134(facts, res)
     r135(facts, res)
     r136(facts, res)
+    r137(facts, res)
